@@ -36,6 +36,7 @@ type worldOpt struct {
 	EagerFSM     bool // the FSM goroutine handles queued items at once (no apply lag)
 	EagerLU      bool // the leader consumes replication updates at once
 	EagerConnect bool // replication streams (re)connect at once when the peer is reachable
+	Disconnects  bool // "peer disconnected" notifications (server.handleConn -> Raft.disconnected) are explicit events
 }
 
 const simVirtualTimer = 1000 * time.Hour
@@ -85,6 +86,27 @@ func (g *gate) release(counted bool) {
 	}
 	w.mu.Unlock()
 	g.resume <- struct{}{}
+}
+
+// waitParked blocks until the gated goroutine has arrived at its hook.
+func (g *gate) waitParked() error {
+	w := g.w
+	t := time.AfterFunc(simWatchdog, func() {
+		w.mu.Lock()
+		w.stuck = true
+		w.cond.Broadcast()
+		w.mu.Unlock()
+	})
+	defer t.Stop()
+	w.mu.Lock()
+	defer w.mu.Unlock()
+	for !g.parked && !w.stuck {
+		w.cond.Wait()
+	}
+	if !g.parked {
+		return errSimStuck
+	}
+	return nil
 }
 
 func (g *gate) isParked() bool {
@@ -564,6 +586,10 @@ func (n *simNode) start() error {
 		}()
 		n.serveErr = r.Serve(lis)
 	}()
+	// the FSM goroutine parks before its first receive
+	if err := n.fsmGate.waitParked(); err != nil {
+		return err
+	}
 	if r.snaps.index > 0 {
 		// Serve blocks until the FSM goroutine has restored the snapshot
 		n.fsmGate.release(true)
@@ -664,13 +690,45 @@ func (n *simNode) stepLoop(feed func() error) error {
 	return n.afterStep()
 }
 
-// afterStep checks whether the node terminated by itself.
+// afterStep checks whether the node terminated by itself (removed from the
+// cluster, storage/FSM error, panic recovered by stateLoop): the real exit
+// path of Serve then runs with the node's hooks passing through.
 func (n *simNode) afterStep() error {
 	select {
 	case <-n.serveDone:
 		n.w.onServeExit(n)
+		return nil
 	default:
 	}
+	if n.up && n.r.isClosed() {
+		return n.selfExit()
+	}
+	return nil
+}
+
+func (n *simNode) selfExit() error {
+	w := n.w
+	w.mu.Lock()
+	n.free = true
+	var rel []*gate
+	for _, g := range []*gate{n.loopGate, n.fsmGate, n.snapGate} {
+		if g.parked {
+			rel = append(rel, g)
+		}
+	}
+	w.mu.Unlock()
+	for _, g := range rel {
+		g.release(false)
+	}
+	t := time.NewTimer(simWatchdog)
+	defer t.Stop()
+	select {
+	case <-n.serveDone:
+	case <-t.C:
+		return fmt.Errorf("node %d closed itself but Serve did not return: %w", n.id, errSimStuck)
+	}
+	w.onServeExit(n)
+	n.abandon()
 	return nil
 }
 
@@ -719,10 +777,7 @@ func (w *world) settle() error {
 			}
 		}
 		// identity handshakes are delivered at once
-		w.mu.Lock()
-		conns := append([]*simConn(nil), w.conns...)
-		w.mu.Unlock()
-		for _, c := range conns {
+		for _, c := range w.liveConns() {
 			w.mu.Lock()
 			closed := c.closed
 			w.mu.Unlock()
